@@ -140,6 +140,17 @@ func (s *Server) corrupt(where string, v []byte, other []byte) []byte {
 		for i := range out {
 			out[i] = byte(0x5a + 3*i)
 		}
+	case how == "shift-left" || how == "shift-right":
+		// the same digits one byte further left / right: another number, which a comparison that drops leading
+		// zero bytes and aligns both values at one end takes for the same when the value starts (ends) with 00
+		if how == "shift-left" {
+			out = append(append([]byte{}, v[1:]...), 0)
+		} else {
+			out = append([]byte{0}, v[:len(v)-1]...)
+		}
+		if bytes.Equal(out, v) {
+			s.Applied = false
+		}
 	default:
 		var bit int
 		if n, _ := fmt.Sscanf(how, "flip:%d", &bit); n == 1 {
